@@ -2,7 +2,7 @@
 (* Scenario: every type that can be both encoded and decoded, over the subset  *)
 (* generators: decode(encode(v)) = v and encode(decode(b)) = b for canonical b *)
 (* in the image.  The relying-party icon is the one documented exception.  C15 *)
-EXTENDS Ctap, Gen
+EXTENDS Ctap, Gen, Lattice
 
 SubsetsAuto(min, vals) ==
     IF Cardinality(DOMAIN vals) <= 8 THEN SubsetsOf(min, vals) ELSE SmallSubsetsOf(min, vals)
@@ -45,6 +45,17 @@ Values ==
     \cup {[type |-> "CmSub", v |-> n] : n \in CmSubcommands}
     \cup {[type |-> "CredProtect", v |-> n] : n \in CredProtectPolicies}
 
+\* every member of every bidirectional map type one at a time over the lattice of its type, and
+\* the list / scalar types over theirs (repeated entries, both orders, unknown-but-representable values)
+\* (algorithm lists are restricted to the decodable image: unknown algorithms are filtered by design)
+KnownOnly(t, v) == t # "GetInfoResp" \/ v.algorithms = << >> \/ \A i \in 1..Len(v.algorithms[1]) : v.algorithms[1][i] \in KnownAlgs
+LatticeValues ==
+    UNION {{[type |-> t, v |-> v] : v \in {x \in OneAtATime(t, F, FALSE) : KnownOnly(t, x)}} :
+              t \in {"CpReq", "CmReq", "CmParams", "LbReq", "GetInfoResp", "GetInfoOptions", "CpResp", "LbResp", "HmacIn",
+                     "AuthOptions", "McExt", "GaExtIn", "GaExtOut", "User", "Desc", "DescRef", "Param"}
+                    \cup (IF GIF \in F THEN {"Certifications"} ELSE {})}
+    \cup {[type |-> "Params", v |-> l] : l \in {x \in ParamsAlts : \A i \in 1..Len(x) : x[i] \in KnownAlgs}}
+
 \* types the harness can build through the public API (the others are reached from bytes only)
 Constructible == {"Rp", "User", "Desc", "Param", "Params", "McExt", "GaExtOut", "GetInfoResp", "GetInfoOptions",
                   "Certifications", "CpResp", "LbResp", "CoseEcdh", "CoseAny", "Version", "Extension", "Transport",
@@ -61,8 +72,11 @@ IconException ==
         @@ [sv |-> <<sv>>, reenc |-> EncTy(T_Struct("Rp"), Lossy(T_Struct("Rp"), sv, F), F)]}
 
 MC_Cases ==
-    {RtCase(x) : x \in Values} \cup IconException
+    {RtCase(x) : x \in Values \cup LatticeValues} \cup IconException
     \cup {TypeEncCase(x.type, x.v, "construct") : x \in {y \in Values : y.type \in Constructible}}
+
+\* without the per-member lattices (used where the same corpus is run under many configurations)
+MC_BaseCases == {RtCase(x) : x \in Values} \cup IconException
 
 (***************************************************************************)
 (* C15 on the model                                                        *)
